@@ -31,7 +31,7 @@ _REACH = None
 def reach():
     global _REACH
     if _REACH is None:
-        r = M.reachable()
+        r = M.reachable(cannibal=True)
         _REACH = [r[k] for k in sorted(r)]
     return _REACH
 
@@ -238,7 +238,7 @@ def run_state(idx, mode, acc):
         base_ok = not viol
     if not base_ok:
         return
-    for label, ev, line, nxt in M.enabled(mstate):
+    for label, ev, line, nxt in M.enabled(mstate, cannibal=True):
         with World() as w:
             viol = []
             if mode == 'ev':
@@ -315,7 +315,7 @@ def replay(p):
     mstate, path = reach()[p['idx']]
     log = ['%s %s' % (ev, line) for _, ev, line in path] if p['mode'] == 'ev' else ['snapshot: %r' % (M.snapshot(mstate),)]
     if p['label']:
-        for label, ev, line, nxt in M.enabled(mstate):
+        for label, ev, line, nxt in M.enabled(mstate, cannibal=True):
             if label == p['label']:
                 log.append('then: %s %s' % (ev, line))
     return dict(violations=a.viol, log=log)
